@@ -29,7 +29,11 @@ CLAIMS = {
          "simple dimension / centraliser / copies) must equal those of the reported name. That the reduction is correct for all inputs is the classification "
          "theorem of arXiv:2408.00081 and is NOT proved.",
          "Lean-verified closure checker evaluated per input + exact differential correspondence of the classifier model"),
- "C02": ("other", "6.C02", "Partial: closure of canonical vertices == closure of generators and dependents inside it, decided per input with the Lean-verified closureList "
+ "C02": ("other", "6.C02", "Closure preservation PROVED in Lean for ALL inputs under an executable condition (C02_closure_partial / C02_classify_partial): if a guarded run of the "
+         "reduction — which checks a local certificate at every move (contraction with an anticommuting vertex, twist v*(p*q), verdicts of dependency) — reports no failed check, the "
+         "canonical vertices generate exactly the closure of the generators and every dependent lies in it; the guarded run erases to the plain model (C02_erasure), every "
+         "primitive and every step I-VII preserves the invariant (Hoare-style program logic). The condition (the star-shape theorem of arXiv:2408.00081) is evaluated per input at "
+         "ANY n by the model command `guards` (all inputs of the check), and additionally the closure is compared per input with the Lean-verified closureList "
          "(n<=6); star-of-paths shape (Lean checker, PROVED equivalent to the declarative notion IsCanonicalStar: C02_shape_checker), accounting (vertices + dependents == distinct inputs) and one graph per "
          "component at any n (to 16/24 qubits). Closure preservation of the reduction for all inputs is not proved.",
          "Lean-verified closure/shape checkers per input + differential correspondence of the reduction model"),
